@@ -132,6 +132,22 @@ CLAIMS = {
         "finding: two global channels on one basis.",
         "DESIGN.md §3 C05",
     ),
+    "C01": (
+        "exploration",
+        "exhaustive boundary grids (full Cartesian products per limit group) through every pulse-adding entry point, judged "
+        "by a predicate written from the statement; plus a limit monitor on every state of a call-history BFS",
+        "Grid: 3205 (quick) / 9k (thorough) cases = channel configurations (each of max_amp, max_abs_detuning, min_avg_amp, "
+        "max_duration, DMM bottom / total bottom independently undefined or set; clock 1/4; min duration 1/5/16) x 7 waveform "
+        "kinds x values at, just inside and just outside each limit plus 0, NaN, +-inf, +-4e-7 past the detuning limit, "
+        "durations around min / clock multiples / max; entry points add, add_dmm_detuning (sign, 4 weight maps), "
+        "enable_eom_mode + add_eom_pulse, config_slm_mask. Both directions are checked: outside a limit => refused, inside "
+        "every limit => accepted and scheduled unchanged (or only lengthened to the next clock multiple with the same defining "
+        "parameters). Monitor: every pulse slot of every state of a depth 2-4 BFS on two worlds with all limits and a 160 ns "
+        "device maximum.",
+        "Detuning values within 1e-6 of a limit are a don't-care band; custom / composite waveforms may be refused for "
+        "non-clock-multiple durations; waveform samples trusted (C16).",
+        "DESIGN.md §3 C01",
+    ),
 }
 
 PENDING_REASON = "check not built yet in this round (design in DESIGN.md §3); nothing is claimed for it"
